@@ -4,7 +4,8 @@
    carried out: it reads the clock readings, the process(dt) calls, the
    scripted actions and how start() ended.  No proofs in this file. *)
 From Coq Require Import ZArith List Bool Arith.
-From Desper Require Import Lib.Alist Loop.Model.
+From Desper Require Import Lib.Alist.
+From Desper Require Export Loop.Model.
 Import ListNotations.
 Open Scope Z_scope.
 
